@@ -596,7 +596,8 @@ func runC06(c *an.Ctx) {
 	c.Floor("C06-R10", 1)
 	c.Borrow("C06-R10", runC07, func(o an.Obligation) bool { return o.Rule == "C07-R4" && strings.Contains(o.Key, "toCacheItem") })
 	// ---- R9: a receive buffer held in a session goes back to its pool once per session, however often the session is written to
-	if n := sharedPutOfOwnedField(c, "C06-R9", ""); n < 1 {
+	// (the only instance is in the bind-to-device listener, which exists on Linux only)
+	if n := sharedPutOfOwnedField(c, "C06-R9", ""); n < 1 && (c.Config.GOOS == "" || c.Config.GOOS == "linux") {
 		c.Und("C06-R9", "pool returns of values held in longer-lived objects", token.NoPos, "none found (anchor: bindtodevice writeToUDPConn)")
 	}
 	// ---- R4: an upstream reply is accepted only when it matches this query (shared with C17-R4)
